@@ -79,6 +79,28 @@ def bases():
         init=[key(1), Z[0], Z[1]],
         univ=[key(1), Z[0], Z[1], Z[2]],
         weight=30)
+    # ... and the opposite: prefixes of pairwise distinct bytes, so that a walk at the wrong offset after an in-place prefix
+    # cut or prepend sees a prefix MISmatch (the "prefix does not match" exits) rather than a missing child
+    D = [key(1, 2, 3, 1), key(1, 2, 3, 2)]
+    B["distinct_prefix"] = dict(
+        init=D,
+        univ=D + [key(1, 2, 3, 3), key(1, 9), key(2)],
+        weight=30)
+    B["distinct_prefix_below"] = dict(
+        init=[key(7)] + D,
+        univ=[D[0], D[1], key(7), key(1, 2, 9), key(1, 4)],
+        weight=30)
+    # mirror images: the inner node is the RIGHT-most child, so that reverse traversals (last(), prior(), reverse seeks)
+    # descend through it the way forward ones descend through the left-most one in the bases above
+    NR = [key(2, 0, 0, 0, 0, 0, 0, x) for x in (1, 3, 5)]
+    B["two_level_right"] = dict(
+        init=[key(1), NR[0], NR[1]],
+        univ=[key(1), NR[0], NR[1], NR[2], key(2, 0, 0, 0, 0, 0, 0, 2), key(3)],
+        weight=30)
+    B["three_level_right"] = dict(
+        init=[key(1), key(2, 1, 1), key(2, 2, 1), key(2, 2, 3)],
+        univ=[key(1), key(2, 1, 1), key(2, 2, 1), key(2, 2, 3), key(2, 2, 2), key(2, 3)],
+        weight=35)
     # three levels: root I4 -> I4 -> I4 of leaves; collapse of the middle
     B["three_level"] = dict(
         init=[key(1, 1, 1), key(1, 1, 2), key(1, 2, 1), key(2)],
@@ -90,6 +112,17 @@ def bases():
         init=wide + N1[:2],
         univ=[N1[0], N1[1], N1[2], wide[0], key(7)],
         weight=45)
+    # growth and shrink of a node BELOW the root, whose parent is a real inode that a sibling writer can modify (at the root
+    # the "parent" is only the root pointer lock)
+    C5 = [key(1, 0, 0, 0, 0, 0, 0, x) for x in (1, 2, 3, 4, 5)]
+    B["i16_min_below"] = dict(
+        init=C5 + [key(2)],
+        univ=[C5[0], C5[4], key(2), key(3), key(0)],
+        weight=50)
+    B["i4_full_below"] = dict(
+        init=C5[:4] + [key(2)],
+        univ=[C5[0], C5[4], key(2), key(3), key(0)],
+        weight=45)
     # heavy ones: 16 -> 17, 17 -> 16, 48 -> 49, 49 -> 48
     S16 = g1(range(1, 17))
     B["i16_full"] = dict(init=S16, univ=[S16[0], S16[15], g1([17])[0], g1([18])[0]], weight=60)
@@ -99,6 +132,9 @@ def bases():
     B["i48_full"] = dict(init=S48, univ=[S48[0], S48[47], g1([49])[0], g1([50])[0]], weight=120)
     S49 = g1(range(1, 50))
     B["i256_min"] = dict(init=S49, univ=[S49[0], S49[48], g1([50])[0]], weight=125)
+    # a completely full inode_256 (its 8-bit child count wraps to 0)
+    S256 = g1(range(0, 256))
+    B["i256_full"] = dict(init=S256, univ=[S256[0], S256[255], S256[128]], weight=300)
     return B
 
 
@@ -131,7 +167,7 @@ def c03(tier):
     small bases"""
     out = []
     B = bases()
-    heavy = ("i16_full", "i48_min", "i48_full", "i256_min")
+    heavy = ("i16_full", "i48_min", "i48_full", "i256_min", "i256_full")
     for name, base in B.items():
         ops = single_ops(base)
         for a, b in itertools.combinations_with_replacement(ops, 2):
@@ -188,6 +224,32 @@ def c03(tier):
     return out
 
 
+def c01_views(tier):
+    """C01's last clause on the OLC index: 'a value view obtained earlier stays readable and unchanged ... at least until the
+    caller's next quiescent state'.  One worker runs a sequential program while a second registered thread merely exists
+    (blocked at a barrier), so that reclamation is really deferred: get (the view is held), then an operation that removes
+    the entry or restructures the node around it, then the view is re-read at the worker's next quiescent state.  No race:
+    bound 0."""
+    out = []
+    B = bases()
+    names = ["two_level", "two_leaves", "single_leaf", "i4_full", "i16_min", "i4_three", "three_level", "i16_full", "i48_min",
+             "i48_full", "i256_min", "i256_full", "i16_min_below", "i4_full_below", "zero_run", "distinct_prefix_below"]
+    for name in names:
+        base = B[name]
+        present = [k for k in base["univ"] if k in base["init"]]
+        absent = [k for k in base["univ"] if k not in base["init"]]
+        for k in present:
+            ops = ["r:" + k] + ["r:" + o for o in present if o != k][:2] + ["i:" + a for a in absent]
+            for op in ops:
+                for tail in (["b"], ["r:" + present[-1], "b"] if op != "r:" + present[-1] else ["i:" + present[-1], "b"]):
+                    prog = ["g:" + k, op] + tail
+                    out.append(dict(id="c01v-%s-%s" % (name, "".join(x.replace(":", "") for x in prog)),
+                                    init=base["init"], threads=[prog, ["b"]], bound=0, base=name))
+        out.append(dict(id="c01v-%s-scan" % name, init=base["init"], threads=[["s:f", "r:" + present[0], "b"], ["b"]], bound=0, base=name))
+        out.append(dict(id="c01v-%s-scanr" % name, init=base["init"], threads=[["s:r", "r:" + present[-1], "b"], ["b"]], bound=0, base=name))
+    return out
+
+
 def hash_det(s):
     h = 0
     for ch in s:
@@ -208,7 +270,7 @@ def c04(tier):
     B = bases()
     names = ["two_level", "two_level_wide", "two_leaves", "single_leaf", "i4_full", "i16_min", "i4_three", "three_level", "i16_full"]
     if tier == "thorough":
-        names += ["below_i16", "i48_min", "i48_full", "i256_min"]
+        names += ["below_i16", "i48_min", "i48_full", "i256_min", "i256_full"]
     for name in names:
         base = B[name]
         present = [k for k in base["univ"] if k in base["init"]]
@@ -233,6 +295,18 @@ def c04(tier):
                 out.append(dict(id="c04-%s-%s--%s" % (name, "".join(x.replace(":", "") for x in r), "".join(x.replace(":", "") for x in w)),
                                 init=base["init"], threads=[r, w],
                                 bound=2 if (tier == "thorough" or base["weight"] <= 30) else 1, base=name))
+    # every size-class transition has its own code (one init() per source/target pair): in the quick tier the heavy
+    # boundaries get a reduced family - a reader holding views of the trigger key and of a bystander across the one operation
+    # that grows or shrinks the node (thorough: the full product above)
+    if tier == "quick":
+        for name in ("i48_min", "i48_full", "i256_min", "i256_full"):
+            base = B[name]
+            present = [k for k in base["univ"] if k in base["init"]]
+            absent = [k for k in base["univ"] if k not in base["init"]]
+            trig = ["r:" + present[0]] if name.endswith("_min") else (["i:" + absent[-1]] if absent else ["r:" + present[0], "i:" + present[0]])
+            for r in (["g:" + present[0], "g:" + present[1]], ["q", "g:" + present[0], "q", "g:" + present[1]], ["q", "s:r:h2", "q"]):
+                out.append(dict(id="c04-%s-%s--%s" % (name, "".join(x.replace(":", "") for x in r), "".join(x.replace(":", "") for x in trig)),
+                                init=base["init"], threads=[r, trig + ["q", "q", "q"]], bound=1, base=name))
     # a reader holding a view, a remover that leaves, and a third thread that merely leaves (never quiesces): the orphan
     # hand-over of the leavers decides when the removed leaf is freed
     for name in ("two_level", "two_leaves", "i4_three"):
@@ -261,7 +335,7 @@ def c04(tier):
                                         base=name, shards=1 if tier == "quick" else 4))
     # two writers on one node (no reader): a restart path that retires a node twice, or retires one that stays linked, shows
     # when the retired blocks are freed in the drain and in the final sweep
-    ww_bases = ("two_level", "two_leaves", "three_level", "i4_three", "zero_run_two_level")
+    ww_bases = ("two_level", "two_leaves", "three_level", "i4_three", "zero_run_two_level", "i16_min_below", "i4_full_below")
     if tier == "thorough":
         ww_bases += ("two_level_wide", "i4_full", "i16_min", "below_i16", "zero_run")
     for s in c03(tier):
@@ -284,9 +358,10 @@ def c09(tier):
     stack"""
     out = []
     B = bases()
-    names = ["two_level", "two_level_wide", "two_leaves", "three_level", "i4_three", "i4_full", "i16_min"]
+    names = ["two_level", "two_level_wide", "two_leaves", "three_level", "i4_three", "i4_full", "i16_min", "two_level_right",
+             "three_level_right", "i16_min_below"]
     if tier == "thorough":
-        names += ["below_i16", "single_leaf", "empty"]
+        names += ["below_i16", "single_leaf", "empty", "zero_run", "distinct_prefix", "distinct_prefix_below"]
     for name in names:
         base = B[name]
         init = sorted(base["init"])
@@ -345,10 +420,15 @@ def c14(tier):
     and the scenarios with the most restarts"""
     out = []
     B = bases()
-    for name in ("two_level", "two_leaves", "i4_three", "three_level", "single_leaf", "empty"):
+    for name in ("two_level", "two_leaves", "i4_three", "three_level", "single_leaf", "empty", "i16_min_below", "i4_full_below",
+                 "zero_run_two_level", "distinct_prefix_below"):
         base = B[name]
         ops = single_ops(base)
         wr = [o for o in ops if is_writer(o)]
+        # every pair of single writer operations
+        for a, b in itertools.combinations_with_replacement(wr, 2):
+            out.append(dict(id="c14-%s-w1-%s-%s" % (name, a.replace(":", ""), b.replace(":", "")),
+                            init=base["init"], threads=[[a], [b]], bound=2, base=name))
         # three writers on one small tree
         triples = list(itertools.combinations(wr, 3))
         step = 3 if tier == "thorough" else 29
